@@ -304,6 +304,16 @@ func c20JSON(c *Ctx, sc *strCase) {
 		return
 	}
 	c.Sample(map[string]interface{}{"value": v, "toJSON": string(out)})
+	// the value returned is the caller's: later calls must not change it (a result kept in a
+	// variable and emitted after further toJSON calls is still the JSON of v)
+	first := strings.Clone(string(out))
+	for _, w := range []interface{}{v, []interface{}{1, 2, 3}, "x", v} {
+		encoders.ToJSON(w)
+	}
+	if string(out) != first {
+		c.Fail("toJSON:result-changed-later", fmt.Sprintf("toJSON(%#v) returned %s; after further toJSON calls the same value reads %s", v, first, string(out)), cas)
+		return
+	}
 	if strings.ContainsAny(string(out), "<>&") {
 		c.Fail("toJSON:raw-special", fmt.Sprintf("toJSON(%#v) = %s contains a raw < > &", v, out), cas)
 		return
@@ -324,6 +334,15 @@ func c20JSON(c *Ctx, sc *strCase) {
 	ro := guarded(3*time.Second, func() (string, error) { return plush.Render(`<%= toJSON(v) %>`, ctx) })
 	if v != nil && (ro.IsErr || ro.Out != string(out)) {
 		c.Fail("toJSON:template", fmt.Sprintf("<%%= toJSON(v) %%> rendered %+v, want %s", ro, out), cas)
+		return
+	}
+	if v != nil {
+		ro = guarded(3*time.Second, func() (string, error) {
+			return plush.Render(`<% let a = toJSON(v) %><% let b = toJSON([1, 2, 3]) %><% let c = toJSON(v) %><%= a %>|<%= b %>|<%= c %>`, ctx)
+		})
+		if want := first + "|[1,2,3]|" + first; ro.IsErr || ro.Out != want {
+			c.Fail("toJSON:template-kept", fmt.Sprintf("toJSON results kept in variables rendered %+v, want %s", ro, want), cas)
+		}
 	}
 }
 
